@@ -46,6 +46,16 @@ class DispatcherTask(Task):
                 return App('decoded-by', [defn.id])
             return call
         contracts = {n: callee(d) for n, d in names.items()}
+        # any other generated decoder (of another PGN) is a callee too: reaching it is never what the dispatch specification says
+
+        def foreign(fn_name):
+            def call(ex, f, args, kwargs):
+                return App('decoded-by', [f'<{fn_name} of another PGN>'])
+            return call
+        for fn_name in r.load('pgns').functions:
+            full = f'nmea2000.pgns.{fn_name}'
+            if fn_name.startswith('decode_pgn_') and fn_name != fname and full not in contracts:
+                contracts[full] = foreign(fn_name)
 
         def run(ex):
             d = V.mk_int(dterm)
@@ -83,8 +93,10 @@ class DispatcherTask(Task):
                 goal = vand(*[vnot(match_term(x, d)) for x in nonfb]) if fb is None else False
                 what = 'None'
             else:
-                dk = next(x for x in group if x.id == chosen)
-                if dk.fallback:
+                dk = next((x for x in group if x.id == chosen), None)
+                if dk is None:
+                    goal = False            # a decoder of another PGN: never what the dispatch specification selects
+                elif dk.fallback:
                     goal = vand(*[vnot(match_term(x, d)) for x in nonfb])
                 else:
                     k = nonfb.index(dk)
